@@ -1184,6 +1184,7 @@ func runC16(e *Env) error {
 	lap("large containers")
 	// ---- (c) end to end ----
 	c16ConcurrentDecode(e)
+	c16OddStamps(e)
 	for i, s := range c16HandSites() {
 		c16EndToEnd(e, s, astConst, e.N(4, 40), fmt.Sprintf("hand%d:", i))
 		if i == 1 {
@@ -1310,4 +1311,82 @@ func ctSource(c *twig.CompiledTemplate) string {
 		return ""
 	}
 	return c.Source
+}
+
+// c16OddStamps: a template whose loader reports an unusual modification time (in the future, in milli- or nanoseconds,
+// zero, negative) is compiled, saved and read back like any other; and the bytes handed to the decoder may be reused
+// by the caller afterwards without changing the decoded template.
+func c16OddStamps(e *Env) {
+	r := e.Rep
+	now := time.Now()
+	src := map[string]string{"page": "<p>Hello {{ name }}!</p>{% for i in items %}[{{ i }}]{% endfor %}{% include 'part' %}", "part": strings.Repeat("part text ", 300) + "{{ name }}"}
+	ctx := map[string]interface{}{"name": "World", "items": []interface{}{1, 2, 3}}
+	for _, mt := range []int64{now.Add(36 * time.Hour).Unix(), now.UnixMilli(), now.UnixNano(), 0, -5, 1, 1<<62 + 12345, now.Unix() + 2} {
+		dir, err := os.MkdirTemp("", "c16st-")
+		if err != nil {
+			return
+		}
+		res := guarded(func() (string, error) {
+			build := twig.New()
+			build.RegisterLoader(&flakyLoader{src: src, mtime: map[string]int64{"page": mt, "part": mt}})
+			want, err := build.Render("page", ctx)
+			if err != nil {
+				return "", err
+			}
+			cl := twig.NewCompiledLoader(dir)
+			for _, n := range []string{"page", "part"} {
+				if err := cl.SaveCompiled(build, n); err != nil {
+					return "", fmt.Errorf("SaveCompiled(%s): %w", n, err)
+				}
+			}
+			fresh := twig.New()
+			loader := twig.NewCompiledLoader(dir)
+			fresh.RegisterLoader(loader)
+			if !loader.Exists("page") {
+				return "", fmt.Errorf("STAMP: the compiled loader does not see the file it wrote")
+			}
+			got, err := fresh.Render("page", ctx)
+			if err != nil || got != want {
+				return "", fmt.Errorf("STAMP: compiled file of a template with modification time %d renders %q (%v), its source %q", mt, truncate(got, 60), err, truncate(want, 60))
+			}
+			// decoding from a buffer the caller reuses
+			files, _ := filepath.Glob(filepath.Join(dir, "part*"))
+			if len(files) == 0 {
+				return "", fmt.Errorf("no compiled file for part")
+			}
+			buf, err := os.ReadFile(files[0])
+			if err != nil {
+				return "", err
+			}
+			ct, err := twig.DeserializeCompiledTemplate(buf)
+			if err != nil {
+				return "", err
+			}
+			eng2 := twig.New()
+			if err := eng2.LoadFromCompiledData(buf); err != nil {
+				return "", err
+			}
+			for i := range buf {
+				buf[i] = 'Z'
+			}
+			if ct.Source != src["part"] || ct.Name != "part" {
+				return "", fmt.Errorf("STAMP: the decoded template changed when the caller reused its buffer: name %q, source %q…", ct.Name, truncate(ct.Source, 40))
+			}
+			if out, err := eng2.Render("part", ctx); err != nil || out != strings.Repeat("part text ", 300)+"World" {
+				return "", fmt.Errorf("STAMP: the loaded template changed when the caller reused its buffer: %q… %v", truncate(out, 40), err)
+			}
+			return "ok", nil
+		})
+		os.RemoveAll(dir)
+		r.Seen(fmt.Sprintf("stamps:%d", mt), true)
+		r.Hit("unusual-modification-times")
+		if res.Class == "panic" || res.Class == "timeout" || (res.Err != nil && strings.Contains(res.Err.Error(), "STAMP")) {
+			if r.Violate(Violation{Key: "e2e-render-CompiledLoader", What: fmt.Sprintf("%v %s", res.Err, res.Class),
+				Broken: "theorem C16_load_equiv / C16_decode_encode (implementation-only oracle)", Replay: map[string]any{"kind": "stamps", "mtime": mt, "err": fmt.Sprint(res.Err)}}) {
+				return
+			}
+		} else if res.Err != nil {
+			r.Skip("stamps-setup:" + truncate(res.Err.Error(), 60))
+		}
+	}
 }
